@@ -12,6 +12,9 @@ def main():
     ap = argparse.ArgumentParser()
     sub = ap.add_subparsers(dest="cmd", required=True)
     sp = sub.add_parser("setup")
+    st = sub.add_parser("selftest")
+    st.add_argument("--filter", default=None)
+    st.add_argument("--parallel", type=int, default=4)
     cp = sub.add_parser("check")
     cp.add_argument("prop")
     cp.add_argument("--tier", default=None)
@@ -22,6 +25,9 @@ def main():
     if args.cmd == "setup":
         from engine import setup
         return setup.run()
+    if args.cmd == "selftest":
+        from engine import selftest
+        return selftest.run(args.filter, args.parallel)
     if args.tier:
         os.environ["VERIF_TIER"] = args.tier
     if args.repo:
